@@ -1,32 +1,95 @@
-// Package verrgroup: errgroup on top of vsched threads (engine SCHED).
+// Package verrgroup: golang.org/x/sync/errgroup on top of vsched threads (engine SCHED).
+// The whole API is provided (Go, TryGo, SetLimit, WithContext, Wait) so that a variant of the
+// tree that uses more of it than the pinned one still builds under the scheduler.
 package verrgroup
 
 import (
+	"context"
+	"fmt"
+
 	"verif/engine/vsched"
 	"verif/engine/vsync"
 )
 
 type Group struct {
-	wg  vsync.WaitGroup
-	mu  vsync.Mutex
-	err error
+	cancel func(error)
+	wg     vsync.WaitGroup
+	mu     vsync.Mutex
+	err    error
+	// limit > 0: at most limit functions are active; threads are cooperative, so the counters
+	// need no lock of their own (there is no scheduling point between test and update)
+	limited bool
+	limit   int
+	active  int
 }
 
-func (g *Group) Go(f func() error) {
+// WithContext returns a Group whose context is cancelled when a function returns an error or
+// Wait returns.
+func WithContext(ctx context.Context) (*Group, context.Context) {
+	ctx, cancel := context.WithCancelCause(ctx)
+	return &Group{cancel: cancel}, ctx
+}
+
+func (g *Group) start(f func() error) {
 	g.wg.Add(1)
 	vsched.Go(func() {
-		defer g.wg.Done()
+		defer func() {
+			if g.limited {
+				g.active--
+			}
+			g.wg.Done()
+		}()
 		if err := f(); err != nil {
 			g.mu.Lock()
 			if g.err == nil {
 				g.err = err
+				if g.cancel != nil {
+					g.cancel(g.err)
+				}
 			}
 			g.mu.Unlock()
 		}
 	})
 }
 
+// Go blocks while the limit of active functions is reached.
+func (g *Group) Go(f func() error) {
+	if g.limited {
+		vsched.WaitCond("errgroup.limit", func() bool { return g.active < g.limit })
+		g.active++
+	}
+	g.start(f)
+}
+
+// TryGo starts f only if the limit of active functions is not reached.
+func (g *Group) TryGo(f func() error) bool {
+	if g.limited {
+		vsched.PointOp("errgroup.trygo")
+		if g.active >= g.limit {
+			return false
+		}
+		g.active++
+	}
+	g.start(f)
+	return true
+}
+
+// SetLimit limits the number of active functions; a negative value removes the limit.
+func (g *Group) SetLimit(n int) {
+	if n < 0 {
+		g.limited = false
+		return
+	}
+	if g.active != 0 {
+		panic(fmt.Errorf("errgroup: modify limit while %v goroutines in the group are still active", g.active))
+	}
+	g.limited, g.limit = true, n
+}
+
 func (g *Group) Wait() error {
 	g.wg.Wait()
+	if g.cancel != nil {
+		g.cancel(g.err)
+	}
 	return g.err
 }
